@@ -22,7 +22,11 @@ var c12Inputs = []string{
 // by SMT whether two conflicting accesses are unordered.
 func C12_Pipeline() {
 	src := c12Inputs[verif.Choice("input", len(c12Inputs))]
-	chunk := []int{7, 3, 64}[verif.Choice("chunk", 3)]
+	chunks := []int{7, 3, 64}
+	if verif.Tier() == 1 {
+		chunks = []int{7, 3, 64, 1, 2, 5, 11, 16, 4096}
+	}
+	chunk := chunks[verif.Choice("chunk", len(chunks))]
 	var script []symio.Step
 	for i := 0; i*chunk < len(src); i++ {
 		script = append(script, symio.Step{N: chunk})
